@@ -131,3 +131,631 @@ Proof.
     by (destruct s; try reflexivity; contradiction).
   rewrite Hr. reflexivity.
 Qed.
+
+(* ------------------------------------------------------------------ the oracle table is complete *)
+
+Definition not_miss {A} (r : oresult A) : Prop := match r with RMiss _ _ => False | _ => True end.
+
+Record oracle_total (orc : bytes -> bytes -> option bytes) : Prop := {
+  ot_float : forall b t, not_miss (o_float orc b t);
+  ot_f2i : forall k t, not_miss (o_f2i orc k t);
+  ot_bfint : forall t, not_miss (o_int orc (bs "bfint") t);
+  ot_text : forall fn a, not_miss (o_text orc fn a);
+  ot_complex : forall b s, not_miss (o_complex orc b s);
+  ot_unix : forall a, not_miss (o_time orc (bs "unix") a);
+  ot_ptime : forall a, not_miss (o_time orc (bs "ptime") a)
+}.
+
+Definition settled (r : sres) : Prop := match r with SV _ | SE _ => True | _ => False end.
+
+Lemma lift_settled {A} (r : oresult A) k : not_miss r -> (forall a, settled (k a)) -> settled (lift r k).
+Proof. destruct r; cbn; intros H Hk; [apply Hk | exact I | destruct H]. Qed.
+
+Definition scalar_tok (w : wire) : bool :=
+  match w with
+  | WList _ | WMap _ | WClass _ _ _ | WObj _ _ | WRef _ | WErr _ => false
+  | _ => true
+  end.
+
+(* what the byte-level decoder needs beyond the grammar: real calendar fields, hexadecimal uuids,
+   'i' within 32 bits *)
+Definition wf_tok (w : wire) : bool :=
+  match w with
+  | WInt z => (- 2 ^ 31 <=? z) && (z <=? 2 ^ 31 - 1)
+  | WDigit d => (d <? 10)%N
+  | WDate y mo d tm _ => valid_date y mo d && match tm with Some (h, mi, s, _) => valid_clock h mi s | None => true end
+  | WTime h mi s _ _ => valid_clock h mi s
+  | WGuid g => uuid_syntax g
+  | WChar c => Nat.leb (length c) 4        (* one character of one UTF-16 unit *)
+  | _ => true
+  end.
+
+Lemma digit_cases (d : N) : (d <? 10)%N = true ->
+  d = 0%N \/ d = 1%N \/ d = 2%N \/ d = 3%N \/ d = 4%N \/ d = 5%N \/ d = 6%N \/ d = 7%N \/ d = 8%N \/ d = 9%N.
+Proof. intros H. apply N.ltb_lt in H. lia. Qed.
+
+Tactic Notation "split_digit" constr(dd) constr(HH) :=
+  destruct (digit_cases dd HH) as [?E|[?E|[?E|[?E|[?E|[?E|[?E|[?E|[?E|?E]]]]]]]]]; subst.
+
+Lemma iface_scalar_settled orc opts w :
+  oracle_total orc -> scalar_tok w = true -> wf_tok w = true ->
+  settled (run_action orc SIface (apply_iface_opts opts (arm SIface w)) w).
+Proof.
+  intros [Of Oi Ob Ot Oc Ou Op] Hs Hw.
+  destruct w as [ | | | | |neg|d|z|z|txt|c|str|b|g|y mo dd tm utc|h mi sec fr utc|ws|ws|n fs nx|k ws|k|w'];
+    try discriminate; cbn in Hw |- *; try exact I.
+  all: try (split_digit d Hw; exact I).
+  all: try (rewrite Hw; exact I).
+  all: try (destruct (o_long opts); cbn; exact I).
+  all: destruct (o_real opts); cbn; try exact I; unfold conv_float;
+    try (apply lift_settled; [apply Of | intros; exact I]);
+    try (apply lift_settled; [apply Ot | intros; exact I]).
+Qed.
+
+Lemma upd_nth_some {A} (l : list A) n x : (n < length l)%nat -> exists l', upd_nth n x l = Some l' /\ length l' = length l.
+Proof.
+  revert n. induction l as [|y l IH]; intros n H; cbn in H; [lia|].
+  destruct n as [|n]; cbn.
+  - eexists; split; reflexivity.
+  - destruct (IH n ltac:(lia)) as (l' & E & L). rewrite E. eexists; split; [reflexivity|]. cbn. lia.
+Qed.
+
+Lemma wr_valid st c v : (c < length (mem st))%nat ->
+  exists st', wr_or_panic st (c, []) v = DOk st' /\ length (mem st') = length (mem st).
+Proof.
+  intros H. unfold wr_or_panic, st_wr, wr. cbn [fst snd].
+  destruct (nth_error (mem st) c) as [x|] eqn:E; [|apply nth_error_None in E; lia].
+  cbn [wr_path]. destruct (upd_nth_some (mem st) c v H) as (l' & E' & L). rewrite E'.
+  eexists; split; [reflexivity|]. exact L.
+Qed.
+
+Lemma inject_grows : forall v st st' v', inject st v = (st', v') -> (length (mem st) <= length (mem st'))%nat.
+Proof.
+  induction v; intros st st' v' H; cbn [inject] in H; try (inversion H; subst; lia).
+  - destruct (inject st v) as [st1 x'] eqn:E. inversion H; subst. apply IHv in E. exact E.
+  - destruct (inject st v) as [st1 x'] eqn:E. unfold st_alloc in H. inversion H; subst. apply IHv in E.
+    cbn [mem]. rewrite app_length. cbn. lia.
+Qed.
+
+Lemma iface_scalar_dec orc opts te f w c st :
+  oracle_total orc -> scalar_tok w = true -> wf_tok w = true -> (c < length (mem st))%nat ->
+  (exists st', dec orc opts te (S f) RTop TIface w (c, []) st = DOk st') \/
+  (exists e, dec orc opts te (S f) RTop TIface w (c, []) st = DErr e).
+Proof.
+  intros Ho Hs Hw Hc. cbn [dec]. unfold dec_step. cbn [leaf_of sleaf_of]. unfold dec_scalar.
+  pose proof (iface_scalar_settled orc opts w Ho Hs Hw) as Hset. unfold arm in Hset.
+  destruct (run_action orc SIface (apply_iface_opts opts (sw_lookup (model_switch (routine_of SIface)) (tag_of w))) w)
+    as [v|e| | | | |] eqn:Er; try destruct Hset.
+  - left. destruct (inject (add_tok_ref opts st w) (box v)) as [st1 v2] eqn:Ei.
+    pose proof (inject_grows _ _ _ _ Ei) as Hg. rewrite mem_add_tok_ref in Hg.
+    destruct (wr_valid st1 c v2 ltac:(lia)) as (st' & Hw' & _). exists st'. exact Hw'.
+  - right. exists e. reflexivity.
+Qed.
+
+Lemma default_arm_is_error orc opts te f t w s :
+  oracle_total orc -> is_scalar_type t = true -> sleaf_of t = Some s ->
+  scalar_tok w = true -> wf_tok w = true ->
+  run_action orc s (arm s w) w = SDefaultArm ->
+  exists e, dec_top orc opts te (S (S f)) t w = OErr e.
+Proof.
+  intros Ho Ht Hs Hsc Hw Hr. destruct (scalar_leaf RTop t s Ht Hs) as [Hl Hni].
+  unfold dec_top. cbn [st_alloc dinit mem length]. cbn [dec]. unfold dec_step at 1. rewrite Hl.
+  unfold dec_scalar.
+  replace (match s with SIface => _ | _ => sw_lookup (model_switch (routine_of s)) (tag_of w) end) with (arm s w)
+    by (destruct s; try reflexivity; contradiction).
+  rewrite Hr. unfold default_decode.
+  assert (Hd : sw_lookup (model_switch RtDefault) (tag_of w) = ACall FDecodeError).
+  { destruct w as [ | | | | |neg|d|z|z|txt|c|str|b|g|y mo dd tm utc|h mi sec fr utc|ws|ws|n fs nx|k ws|k|w'];
+      try discriminate; try reflexivity. cbn in Hw. split_digit d Hw; reflexivity. }
+  rewrite Hd.
+  change (fun (r : route) (t0 : gtype) (w0 : wire) (pl : place) (st : dstate) =>
+            dec_step orc opts te (dec orc opts te f) r t0 w0 pl st) with (dec orc opts te (S f)).
+  destruct w as [ | | | | |neg|d|z|z|txt|c|str|b|g|y mo dd tm utc|h mi sec fr utc|ws|ws|n fs nx|k ws|k|w'];
+    try discriminate; cbv iota beta;
+    unfold decode_error, st_alloc; cbn [mem refs clss];
+    (lazymatch goal with |- context [dec orc opts te (S f) RTop TIface ?w (?c, []) ?st1] =>
+      destruct (iface_scalar_dec orc opts te f w c st1 Ho Hsc Hw) as [(st' & E)|(e & E)];
+        [cbn [mem]; rewrite app_length; cbn; lia | rewrite E | rewrite E]
+    end); eexists; reflexivity.
+Qed.
+
+(* ------------------------------------------------------------------ scalar tokens: denotation *)
+
+Definition den (w : wire) : dval :=
+  match w with
+  | WNull => DNull | WEmpty => DStr [] | WTrue => DBool true | WFalse => DBool false | WNaN => DNaN
+  | WInf neg => DInf neg | WDigit d => DInt (Z.of_N d) | WInt z | WLong z => DInt z | WDouble txt => DDouble txt
+  | WChar c => DStr c | WStr s => DStr s | WBytes b => DBytes b | WGuid g => DGuid g
+  | WDate y mo d tm utc => DDate y mo d tm utc | WTime h mi s fr utc => DTime h mi s fr utc
+  | _ => DNull
+  end.
+
+Lemma denote_top_scalar w : scalar_tok w = true -> denote_top w = Some (den w).
+Proof. destruct w; try discriminate; reflexivity. Qed.
+
+(* strconv.ParseInt(s, 10, bits) against the unbounded parse and the destination's range *)
+Lemma go_parse_int_spec k s : ik_signed k = true ->
+  go_parse_int s (int_bits k) = match parse_int s with Some z => if in_range_k k z then Some z else None | None => None end.
+Proof.
+  intros Hs. unfold go_parse_int. destruct (parse_int s) as [z|]; [|reflexivity].
+  unfold in_range_k, ik_min, ik_max. rewrite Hs.
+  destruct k; try discriminate; reflexivity.
+Qed.
+
+Lemma go_parse_uint_spec k s : ik_signed k = false ->
+  go_parse_uint s (int_bits k) = match parse_uint s with Some z => if in_range_k k z then Some z else None | None => None end.
+Proof.
+  intros Hs. unfold go_parse_uint, parse_uint. destruct (parse_digits s) as [n|]; [|reflexivity].
+  unfold in_range_k, ik_min, ik_max. rewrite Hs.
+  assert (0 <= Z.of_N n) by lia. replace (0 <=? Z.of_N n) with true by lia. cbn [andb].
+  destruct k; try discriminate; reflexivity.
+Qed.
+
+(* ------------------------------------------------------------------ the empty-string clause of the specification *)
+
+Lemma rep_scalar_some orc t d v : rep_scalar orc t d = RSome v -> rep_scalar_core orc t d = RSome v.
+Proof.
+  unfold rep_scalar. destruct t; try (intros H; exact H);
+    destruct d; try (intros H; exact H); destruct s; try (intros H; exact H); discriminate.
+Qed.
+
+Lemma rep_scalar_none orc t d : rep_scalar orc t d = RNone -> rep_scalar_core orc t d = RNone.
+Proof.
+  unfold rep_scalar. destruct t; try (intros H; exact H);
+    destruct d; try (intros H; exact H); destruct s; try (intros H; exact H); discriminate.
+Qed.
+
+(* ------------------------------------------------------------------ integer destinations *)
+
+(* hardware conversion of an integral, in-range double is exact for every width *)
+Definition law_f2i (orc : bytes -> bytes -> option bytes) : Prop :=
+  forall k txt z, o_f2i orc (if ik_signed k then KInt64 else KUint64) txt = ROk z -> in_range_k k z = true ->
+                  o_f2i orc k txt = ROk z.
+
+Lemma int_arm_value orc k w v :
+  law_f2i orc -> scalar_tok w = true -> wf_tok w = true ->
+  rep_scalar orc (TInt k) (den w) = RSome v ->
+  run_action orc (SInt k) (arm (SInt k) w) w = SV v.
+Proof.
+  intros Hlaw Hs Hw Hr. apply rep_scalar_some in Hr.
+  destruct w as [ | | | | |neg|d|z|z|txt|c|str|b|g|y mo dd tm utc|h mi sec fr utc|ws|ws|n fs nx|k' ws|k'|w'];
+    try discriminate; cbn [den rep_scalar_core] in Hr; try discriminate.
+  all: try (exfalso; destruct (ik_signed k); cbn in Hr; discriminate).
+  - (* digit *) cbn in Hw. split_digit d Hw; destruct k; cbn in Hr |- *; inversion Hr; reflexivity.
+  - (* i *) destruct (in_range_k k z) eqn:Ei; [|discriminate]. inversion Hr; subst.
+    assert (E : run_action orc (SInt k) (arm (SInt k) (WInt z)) (WInt z) = SV (XInt k (wrap_k k (wrap_k (int_reader k) z))))
+      by (destruct k; reflexivity).
+    rewrite E. f_equal. f_equal.
+    destruct k; cbn [int_reader]; try (rewrite wrap_k_idem; apply wrap_k_id; exact Ei).
+    rewrite uintptr_via_uint64. apply wrap_k_id; exact Ei.
+  - (* l *) destruct (in_range_k k z) eqn:Ei; [|discriminate]. inversion Hr; subst.
+    assert (E : run_action orc (SInt k) (arm (SInt k) (WLong z)) (WLong z) = SV (XInt k (wrap_k k (wrap_k (int_reader k) z))))
+      by (destruct k; reflexivity).
+    rewrite E. f_equal. f_equal.
+    destruct k; cbn [int_reader]; try (rewrite wrap_k_idem; apply wrap_k_id; exact Ei).
+    rewrite uintptr_via_uint64. apply wrap_k_id; exact Ei.
+  - (* d *) unfold int_of_double, of_o in Hr.
+    destruct (o_float orc false txt) as [fv| |] eqn:Ef; try discriminate.
+    destruct (o_f2i orc (if ik_signed k then KInt64 else KUint64) txt) as [z| |] eqn:Ez; try discriminate.
+    destruct (o_float orc false (to_decZ z)) as [fz| |] eqn:Efz; try discriminate.
+    destruct (fkey_eq fv fz && in_range_k k z) eqn:Ec; [|discriminate]. inversion Hr; subst.
+    apply andb_prop in Ec. destruct Ec as [_ Ei].
+    assert (E : run_action orc (SInt k) (arm (SInt k) (WDouble txt)) (WDouble txt) = conv_float orc false (NtI k) txt)
+      by (destruct k; reflexivity).
+    rewrite E. unfold conv_float. rewrite Ef. cbn [lift]. rewrite (Hlaw k txt z Ez Ei). reflexivity.
+  - (* u *)
+    assert (E : run_action orc (SInt k) (arm (SInt k) (WChar c)) (WChar c) =
+                parse_str orc (if ik_signed k then PInt else PUint) (int_bits k) (NtI k) c)
+      by (destruct k; reflexivity).
+    rewrite E. unfold parse_str. destruct (ik_signed k) eqn:Es.
+    + rewrite (go_parse_int_spec k c Es). destruct (parse_int c) as [z|].
+      * destruct (in_range_k k z); [inversion Hr; reflexivity | discriminate].
+      * destruct c; discriminate.
+    + rewrite (go_parse_uint_spec k c Es). destruct (parse_uint c) as [z|].
+      * destruct (in_range_k k z); [inversion Hr; reflexivity | discriminate].
+      * destruct c; discriminate.
+  - (* s *)
+    assert (E : run_action orc (SInt k) (arm (SInt k) (WStr str)) (WStr str) =
+                parse_str orc (if ik_signed k then PInt else PUint) (int_bits k) (NtI k) str)
+      by (destruct k; reflexivity).
+    rewrite E. unfold parse_str. destruct (ik_signed k) eqn:Es.
+    + rewrite (go_parse_int_spec k str Es). destruct (parse_int str) as [z|].
+      * destruct (in_range_k k z); [inversion Hr; reflexivity | discriminate].
+      * destruct str; discriminate.
+    + rewrite (go_parse_uint_spec k str Es). destruct (parse_uint str) as [z|].
+      * destruct (in_range_k k z); [inversion Hr; reflexivity | discriminate].
+      * destruct str; discriminate.
+Qed.
+
+(* the exact guard: the denoted number is an integer of the destination's range *)
+Definition fits_int (orc : bytes -> bytes -> option bytes) (k : ikind) (w : wire) : bool :=
+  match w with
+  | WDigit d => in_range_k k (Z.of_N d)
+  | WInt z | WLong z => in_range_k k z
+  | WDouble txt => match int_of_double orc k txt with RNone => false | _ => true end
+  | _ => true
+  end.
+
+Lemma int_arm_refuses orc k w :
+  scalar_tok w = true -> wf_tok w = true ->
+  rep_scalar orc (TInt k) (den w) = RNone -> fits_int orc k w = true ->
+  (exists e, run_action orc (SInt k) (arm (SInt k) w) w = SE e) \/
+  run_action orc (SInt k) (arm (SInt k) w) w = SDefaultArm.
+Proof.
+  intros Hs Hw Hr Hf. apply rep_scalar_none in Hr.
+  destruct w as [ | | | | |neg|d|z|z|txt|c|str|b|g|y mo dd tm utc|h mi sec fr utc|ws|ws|n fs nx|k' ws|k'|w'];
+    try discriminate; cbn [den rep_scalar_core] in Hr; try discriminate; cbn [fits_int] in Hf.
+  all: try (right; destruct k; reflexivity).
+  all: try (exfalso; destruct (ik_signed k); cbn in Hr; discriminate).
+  - rewrite Hf in Hr. discriminate.
+  - rewrite Hf in Hr. discriminate.
+  - rewrite Hf in Hr. discriminate.
+  - rewrite Hr in Hf. discriminate.
+  - left.
+    assert (E : run_action orc (SInt k) (arm (SInt k) (WChar c)) (WChar c) =
+                parse_str orc (if ik_signed k then PInt else PUint) (int_bits k) (NtI k) c)
+      by (destruct k; reflexivity).
+    rewrite E. unfold parse_str. destruct (ik_signed k) eqn:Es.
+    + rewrite (go_parse_int_spec k c Es). destruct (parse_int c) as [z|].
+      * destruct (in_range_k k z); [discriminate | eexists; reflexivity].
+      * eexists; reflexivity.
+    + rewrite (go_parse_uint_spec k c Es). destruct (parse_uint c) as [z|].
+      * destruct (in_range_k k z); [discriminate | eexists; reflexivity].
+      * eexists; reflexivity.
+  - left.
+    assert (E : run_action orc (SInt k) (arm (SInt k) (WStr str)) (WStr str) =
+                parse_str orc (if ik_signed k then PInt else PUint) (int_bits k) (NtI k) str)
+      by (destruct k; reflexivity).
+    rewrite E. unfold parse_str. destruct (ik_signed k) eqn:Es.
+    + rewrite (go_parse_int_spec k str Es). destruct (parse_int str) as [z|].
+      * destruct (in_range_k k z); [discriminate | eexists; reflexivity].
+      * eexists; reflexivity.
+    + rewrite (go_parse_uint_spec k str Es). destruct (parse_uint str) as [z|].
+      * destruct (in_range_k k z); [discriminate | eexists; reflexivity].
+      * eexists; reflexivity.
+Qed.
+
+(* the refuted classes at the level of one switch arm: whatever is out of range is stored modulo 2^n *)
+Lemma int_arm_wraps orc k z :
+  run_action orc (SInt k) (arm (SInt k) (WLong z)) (WLong z) = SV (XInt k (wrap_k k z)).
+Proof.
+  assert (E : run_action orc (SInt k) (arm (SInt k) (WLong z)) (WLong z) = SV (XInt k (wrap_k k (wrap_k (int_reader k) z))))
+    by (destruct k; reflexivity).
+  rewrite E. destruct k; cbn [int_reader]; try rewrite wrap_k_idem; try reflexivity. rewrite uintptr_via_uint64. reflexivity.
+Qed.
+
+(* ------------------------------------------------------------------ equality up to normalisation is reflexive on scalars *)
+
+Lemma bytes_eqb_refl b : bytes_eqb b b = true.
+Proof. induction b as [|x b IH]; cbn; [reflexivity|]. rewrite IH, andb_true_r. destruct x; reflexivity. Qed.
+
+Lemma fval_same_refl f : fval_same f f = true.
+Proof. destruct f; cbn; [reflexivity | destruct neg; reflexivity | apply bytes_eqb_refl]. Qed.
+
+Lemma ikind_eqb_refl k : ikind_eqb k k = true. Proof. destruct k; reflexivity. Qed.
+
+Lemma xeqv_plain_refl f v : plain v = true -> xeqv (S f) v v = true.
+Proof.
+  destruct v; cbn [plain]; try discriminate; intros _; cbn [xeqv int_payload is_empty_container andb].
+  - reflexivity.
+  - destruct b; reflexivity.
+  - rewrite ikind_eqb_refl, Z.eqb_refl. reflexivity.
+  - apply fval_same_refl.
+  - apply fval_same_refl.
+  - rewrite !fval_same_refl. reflexivity.
+  - rewrite !fval_same_refl. reflexivity.
+  - apply bytes_eqb_refl.
+  - destruct b; [reflexivity | apply bytes_eqb_refl].
+  - apply Z.eqb_refl.
+  - apply bytes_eqb_refl.
+  - apply bytes_eqb_refl.
+  - rewrite !Z.eqb_refl. destruct utc; reflexivity.
+  - apply bytes_eqb_refl.
+Qed.
+
+(* ------------------------------------------------------------------ bool, string, bytes, time, uuid, big.Int, big.Rat *)
+
+Definition law_uuid (orc : bytes -> bytes -> option bytes) : Prop :=
+  forall s, uuid_syntax s = true -> o_text orc (bs "uuid") s = ROk (uuid_lower s).
+
+Definition simple_type (t : gtype) : bool :=
+  match t with TBool | TString | TBytes | TTime | TUuid | TBigInt | TBigRat => true | _ => false end.
+
+Lemma uuid_shape_length g : forall i, uuid_shape i g = true -> (i + length g = 36)%nat.
+Proof.
+  induction g as [|x g IH]; intros i H; cbn [uuid_shape] in H.
+  - apply Nat.eqb_eq in H. cbn. lia.
+  - apply andb_prop in H. destruct H as [_ H]. apply IH in H. cbn. lia.
+Qed.
+
+Lemma in_range_int32_wrap64 z : (- 2 ^ 31 <=? z) && (z <=? 2 ^ 31 - 1) = true -> wrap_k KInt64 z = z.
+Proof. intros H. apply wrap_k_id. unfold in_range_k. cbn. lia. Qed.
+
+Ltac done_val := eexists; split; [reflexivity | split; [reflexivity | apply xeqv_plain_refl; reflexivity]].
+
+Lemma simple_arm_value orc te t s w v :
+  law_uuid orc -> simple_type t = true -> sleaf_of t = Some s ->
+  scalar_tok w = true -> wf_tok w = true ->
+  rep_scalar orc t (den w) = RSome v ->
+  exists v', run_action orc s (arm s w) w = SV v' /\ plain (post te s t v') = true /\ xeqv spec_fuel (post te s t v') v = true.
+Proof.
+  intros Hlaw Ht Hs Hsc Hw Hr.
+  destruct t; try discriminate; cbn in Hs; inversion Hs; subst s; clear Hs.
+  all: destruct w as [ | | | | |neg|d|z|z|txt|c|str|b|g|y mo dd tm utc|h mi sec fr utc|ws|ws|n fs nx|k' ws|k'|w'];
+    try discriminate; unfold rep_scalar in Hr; cbn [den] in Hr; cbv iota beta in Hr; try discriminate.
+  all: try (destruct c as [|c0 c1] eqn:Ec; [discriminate|]; rewrite <- Ec in *; clear Ec c0 c1).
+  all: try (destruct str as [|c0 c1] eqn:Ec; [discriminate|]; rewrite <- Ec in *; clear Ec c0 c1).
+  all: cbn [rep_scalar_core] in Hr; try discriminate.
+  all: try (inversion Hr; subst; done_val).
+  all: try (cbn in Hw; split_digit d Hw; inversion Hr; subst; done_val).
+  - (* string <- guid *) cbn in Hw. rewrite Hw in Hr. inversion Hr; subst.
+    eexists; split; [cbn; rewrite Hw; reflexivity | split; [reflexivity | apply xeqv_plain_refl; reflexivity]].
+  - (* bytes <- s *) inversion Hr; subst. destruct str; eexists; (split; [reflexivity | split; [reflexivity|]]).
+    + reflexivity.
+    + apply xeqv_plain_refl; reflexivity.
+  - (* bigint <- i *) inversion Hr; subst. cbn in Hw.
+    eexists; split; [reflexivity | split; [reflexivity|]]. cbn [post]. 
+    change (wrap_s 64 z) with (wrap_k KInt64 z). rewrite (in_range_int32_wrap64 z Hw). apply xeqv_plain_refl; reflexivity.
+  - (* bigint <- d *) unfold bigint_of_double, of_o in Hr.
+    destruct (o_text orc (bs "bf") txt) as [t1| |] eqn:E1; try discriminate.
+    destruct (o_int orc (bs "bfint") txt) as [z| |] eqn:E2; try discriminate.
+    destruct (o_text orc (bs "bf") (to_decZ z)) as [t2| |] eqn:E3; try discriminate.
+    destruct (bytes_eqb t1 t2 || zero_text t1 && zero_text t2); [|discriminate]. inversion Hr; subst.
+    assert (E : run_action orc SBigIntV (arm SBigIntV (WDouble txt)) (WDouble txt) =
+                lift (o_text orc (bs "bf") txt) (fun _ => lift (o_int orc (bs "bfint") txt) (fun z => SV (XPtr (XBigInt z)))))
+      by reflexivity.
+    eexists; split; [rewrite E, E1; cbn [lift]; rewrite E2; reflexivity | split; [reflexivity | apply xeqv_plain_refl; reflexivity]].
+  - (* bigint <- u *) destruct (parse_int c) as [z|] eqn:E; [|destruct c; discriminate]. inversion Hr; subst.
+    assert (E0 : run_action orc SBigIntV (arm SBigIntV (WChar c)) (WChar c) = parse_str orc PBigInt 0 NtBigInt c) by reflexivity.
+    eexists; split; [rewrite E0; unfold parse_str; rewrite E; reflexivity | split; [reflexivity | apply xeqv_plain_refl; reflexivity]].
+  - (* bigint <- s *) destruct (parse_int str) as [z|] eqn:E; [|destruct str; discriminate]. inversion Hr; subst.
+    assert (E0 : run_action orc SBigIntV (arm SBigIntV (WStr str)) (WStr str) = parse_str orc PBigInt 0 NtBigInt str) by reflexivity.
+    eexists; split; [rewrite E0; unfold parse_str; rewrite E; reflexivity | split; [reflexivity | apply xeqv_plain_refl; reflexivity]].
+  - (* bigrat <- i *) inversion Hr; subst. cbn in Hw.
+    eexists; split; [reflexivity | split; [reflexivity|]]. cbn [post].
+    change (wrap_s 64 z) with (wrap_k KInt64 z). rewrite (in_range_int32_wrap64 z Hw). apply xeqv_plain_refl; reflexivity.
+  - (* bigrat <- d *) unfold of_o in Hr.
+    destruct (o_float orc false txt) as [f0| |] eqn:E1; try discriminate.
+    destruct (o_text orc (bs "ratf") txt) as [t1| |] eqn:E2; try discriminate. inversion Hr; subst.
+    assert (E : run_action orc SBigRatV (arm SBigRatV (WDouble txt)) (WDouble txt) = conv_float orc false NtBigRat txt) by reflexivity.
+    eexists; split; [rewrite E; unfold conv_float; rewrite E1; cbn [lift]; rewrite E2; reflexivity
+                    | split; [reflexivity | apply xeqv_plain_refl; reflexivity]].
+  - (* bigrat <- u *) unfold of_o in Hr. destruct (o_text orc (bs "rat") c) as [t1| |] eqn:E1; try discriminate;
+      [|destruct c; discriminate]. inversion Hr; subst.
+    assert (E : run_action orc SBigRatV (arm SBigRatV (WChar c)) (WChar c) = parse_str orc PBigRat 0 NtBigRat c) by reflexivity.
+    eexists; split; [rewrite E; unfold parse_str; rewrite E1; reflexivity | split; [reflexivity | apply xeqv_plain_refl; reflexivity]].
+  - (* bigrat <- s *) unfold of_o in Hr. destruct (o_text orc (bs "rat") str) as [t1| |] eqn:E1; try discriminate;
+      [|destruct str; discriminate]. inversion Hr; subst.
+    assert (E : run_action orc SBigRatV (arm SBigRatV (WStr str)) (WStr str) = parse_str orc PBigRat 0 NtBigRat str) by reflexivity.
+    eexists; split; [rewrite E; unfold parse_str; rewrite E1; reflexivity | split; [reflexivity | apply xeqv_plain_refl; reflexivity]].
+  - (* time <- D *) cbn in Hw. unfold time_of_dval in Hr. rewrite Hw in Hr. inversion Hr; subst.
+    assert (E : run_action orc STime (arm STime (WDate y mo dd tm utc)) (WDate y mo dd tm utc) = read_src orc STime RDate (WDate y mo dd tm utc)) by reflexivity.
+    eexists; split; [rewrite E; cbn [read_src]; rewrite Hw; reflexivity | split; [destruct tm as [[[[? ?] ?] ?]|]; reflexivity|]].
+    destruct tm as [[[[? ?] ?] ?]|]; apply xeqv_plain_refl; reflexivity.
+  - (* time <- T *) cbn in Hw. unfold time_of_dval in Hr. rewrite Hw in Hr. inversion Hr; subst.
+    assert (E : run_action orc STime (arm STime (WTime h mi sec fr utc)) (WTime h mi sec fr utc) = read_src orc STime RTime (WTime h mi sec fr utc)) by reflexivity.
+    eexists; split; [rewrite E; cbn [read_src]; rewrite Hw; reflexivity | split; [reflexivity | apply xeqv_plain_refl; reflexivity]].
+  - (* uuid <- u: one character is not a uuid *) exfalso. cbn in Hw. apply Nat.leb_le in Hw.
+    destruct (uuid_syntax c) eqn:Eu; [|discriminate]. apply uuid_shape_length in Eu. lia.
+  - (* uuid <- s *) destruct (uuid_syntax str) eqn:Eu; [|discriminate]. inversion Hr; subst.
+    assert (E : run_action orc SUuid (arm SUuid (WStr str)) (WStr str) = parse_str orc PUuid 0 NtUuid str) by reflexivity.
+    eexists; split; [rewrite E; unfold parse_str; rewrite (Hlaw str Eu); reflexivity | split; [reflexivity | apply xeqv_plain_refl; reflexivity]].
+  - (* uuid <- b *) destruct (Nat.eqb (length b) 16) eqn:El; [|discriminate]. inversion Hr; subst.
+    assert (E : run_action orc SUuid (arm SUuid (WBytes b)) (WBytes b) = read_src orc SUuid RBytes (WBytes b)) by reflexivity.
+    eexists; split; [rewrite E; cbn [read_src]; rewrite El; reflexivity | split; [reflexivity | apply xeqv_plain_refl; reflexivity]].
+  - (* uuid <- g *) cbn in Hw. rewrite Hw in Hr. inversion Hr; subst.
+    assert (E : run_action orc SUuid (arm SUuid (WGuid g)) (WGuid g) = read_src orc SUuid RGuid (WGuid g)) by reflexivity.
+    eexists; split; [rewrite E; cbn [read_src]; rewrite Hw; reflexivity | split; [reflexivity | apply xeqv_plain_refl; reflexivity]].
+Qed.
+
+Definition fits_simple (orc : bytes -> bytes -> option bytes) (t : gtype) (w : wire) : bool :=
+  match t, w with
+  | TBigInt, WDouble txt => match bigint_of_double orc txt with RNone => false | _ => true end
+  | _, _ => true
+  end.
+
+Lemma simple_arm_refuses orc t s w :
+  oracle_total orc -> simple_type t = true -> sleaf_of t = Some s ->
+  scalar_tok w = true -> wf_tok w = true ->
+  rep_scalar orc t (den w) = RNone -> fits_simple orc t w = true ->
+  (exists e, run_action orc s (arm s w) w = SE e) \/ run_action orc s (arm s w) w = SDefaultArm.
+Proof.
+  intros [Of Oi Ob Ot Oc Ou Op] Ht Hs Hsc Hw Hr Hf.
+  destruct t; try discriminate; cbn in Hs; inversion Hs; subst s; clear Hs.
+  all: destruct w as [ | | | | |neg|d|z|z|txt|c|str|b|g|y mo dd tm utc|h mi sec fr utc|ws|ws|n fs nx|k' ws|k'|w'];
+    try discriminate; unfold rep_scalar in Hr; cbn [den] in Hr; cbv iota beta in Hr; try discriminate.
+  all: try (destruct c as [|c0 c1] eqn:Ec; [discriminate|]; rewrite <- Ec in *; clear Ec c0 c1).
+  all: try (destruct str as [|c0 c1] eqn:Ec; [discriminate|]; rewrite <- Ec in *; clear Ec c0 c1).
+  all: cbn [rep_scalar_core] in Hr; try discriminate.
+  all: try (right; reflexivity).
+  all: try (right; cbn in Hw; split_digit d Hw; reflexivity).
+  - (* string <- g *) cbn in Hw. rewrite Hw in Hr. discriminate.
+  - (* bigint <- d *) cbn [fits_simple] in Hf. rewrite Hr in Hf. discriminate.
+  - (* bigint <- u *) left. destruct (parse_int c) as [z|] eqn:E; [discriminate|].
+    assert (E0 : run_action orc SBigIntV (arm SBigIntV (WChar c)) (WChar c) = parse_str orc PBigInt 0 NtBigInt c) by reflexivity.
+    rewrite E0. unfold parse_str. rewrite E. eexists; reflexivity.
+  - (* bigint <- s *) left. destruct (parse_int str) as [z|] eqn:E; [discriminate|].
+    assert (E0 : run_action orc SBigIntV (arm SBigIntV (WStr str)) (WStr str) = parse_str orc PBigInt 0 NtBigInt str) by reflexivity.
+    rewrite E0. unfold parse_str. rewrite E. eexists; reflexivity.
+  - (* bigrat <- d *) left. unfold of_o in Hr.
+    assert (E : run_action orc SBigRatV (arm SBigRatV (WDouble txt)) (WDouble txt) = conv_float orc false NtBigRat txt) by reflexivity.
+    rewrite E. unfold conv_float. pose proof (Of false txt) as Hn. pose proof (Ot (bs "ratf") txt) as Hn2.
+    destruct (o_float orc false txt) as [f0| |]; cbn [lift]; try (eexists; reflexivity); try destruct Hn.
+    destruct (o_text orc (bs "ratf") txt) as [t1| |]; try discriminate; try destruct Hn2.
+  - (* bigrat <- u *) left. unfold of_o in Hr. pose proof (Ot (bs "rat") c) as Hn.
+    assert (E : run_action orc SBigRatV (arm SBigRatV (WChar c)) (WChar c) = parse_str orc PBigRat 0 NtBigRat c) by reflexivity.
+    rewrite E. unfold parse_str. destruct (o_text orc (bs "rat") c) as [t1| |]; try discriminate. eexists; reflexivity.
+  - (* bigrat <- s *) left. unfold of_o in Hr. pose proof (Ot (bs "rat") str) as Hn.
+    assert (E : run_action orc SBigRatV (arm SBigRatV (WStr str)) (WStr str) = parse_str orc PBigRat 0 NtBigRat str) by reflexivity.
+    rewrite E. unfold parse_str. destruct (o_text orc (bs "rat") str) as [t1| |]; try discriminate. eexists; reflexivity.
+  - (* time <- D *) cbn in Hw. unfold time_of_dval in Hr. rewrite Hw in Hr. discriminate.
+  - (* time <- T *) cbn in Hw. unfold time_of_dval in Hr. rewrite Hw in Hr. discriminate.
+  - (* uuid <- s *) destruct (uuid_syntax str); discriminate.
+  - (* uuid <- b *) destruct (Nat.eqb (length b) 16); discriminate.
+  - (* uuid <- g *) cbn in Hw. rewrite Hw in Hr. discriminate.
+Qed.
+
+(* ------------------------------------------------------------------ C06 on scalar destinations (top level) *)
+
+Definition proved_scalar (t : gtype) : bool := match t with TInt _ => true | _ => simple_type t end.
+
+Definition fits (orc : bytes -> bytes -> option bytes) (t : gtype) (w : wire) : bool :=
+  match t with TInt k => fits_int orc k w | _ => fits_simple orc t w end.
+
+Lemma proved_scalar_is_scalar t : proved_scalar t = true -> is_scalar_type t = true.
+Proof. destruct t; cbn; try discriminate; reflexivity. Qed.
+
+Lemma proved_scalar_leaf t : proved_scalar t = true -> exists s, sleaf_of t = Some s.
+Proof. destruct t; cbn; try discriminate; eexists; reflexivity. Qed.
+
+Lemma int_rep_plain orc k w v : scalar_tok w = true -> rep_scalar orc (TInt k) (den w) = RSome v -> plain v = true.
+Proof.
+  intros Hs Hr. apply rep_scalar_some in Hr.
+  destruct w as [ | | | | |neg|d|z|z|txt|c|str|b|g|y mo dd tm utc|h mi sec fr utc|ws|ws|n fs nx|k' ws|k'|w'];
+    try discriminate; cbn [den rep_scalar_core] in Hr; try discriminate;
+    try (destruct (in_range_k k _); [inversion Hr; reflexivity | discriminate]).
+  - destruct (if ik_signed k then parse_int [] else parse_uint []); [|discriminate].
+    destruct (in_range_k k z); [inversion Hr; reflexivity | discriminate].
+  - unfold int_of_double, of_o in Hr.
+    repeat match type of Hr with
+           | context [match ?x with _ => _ end] => destruct x; try discriminate
+           end; inversion Hr; reflexivity.
+  - destruct (if ik_signed k then parse_int c else parse_uint c); [|destruct c; discriminate].
+    destruct (in_range_k k z); [inversion Hr; reflexivity | discriminate].
+  - destruct (if ik_signed k then parse_int str else parse_uint str); [|destruct str; discriminate].
+    destruct (in_range_k k z); [inversion Hr; reflexivity | discriminate].
+Qed.
+
+Lemma accepts_int orc opts te f k w v :
+  law_f2i orc -> scalar_tok w = true -> wf_tok w = true ->
+  rep_scalar orc (TInt k) (den w) = RSome v ->
+  exists v', dec_top orc opts te (S (S f)) (TInt k) w = OOk v' /\ xeqv spec_fuel v' v = true.
+Proof.
+  intros L1 Hs Hw Hr. pose proof (int_rep_plain orc k w v Hs Hr) as Hp.
+  exists v. split.
+  - pose proof (int_arm_value orc k w v L1 Hs Hw Hr) as Ha.
+    apply (dec_top_scalar_value orc opts te (S f) (TInt k) w (SInt k) v eq_refl eq_refl Ha Hp).
+  - apply xeqv_plain_refl. exact Hp.
+Qed.
+
+Theorem accepts_scalar orc opts te f t w v :
+  oracle_total orc -> law_f2i orc -> law_uuid orc ->
+  proved_scalar t = true -> scalar_tok w = true -> wf_tok w = true ->
+  rep_scalar orc t (den w) = RSome v ->
+  exists v', dec_top orc opts te (S (S f)) t w = OOk v' /\ xeqv spec_fuel v' v = true.
+Proof.
+  intros Ho L1 L2 Ht Hs Hw Hr.
+  pose proof (proved_scalar_is_scalar t Ht) as Hsc.
+  destruct (proved_scalar_leaf t Ht) as [s Hs0].
+  destruct (simple_type t) eqn:Est.
+  - destruct (simple_arm_value orc te t s w v L2 Est Hs0 Hs Hw Hr) as (v' & Ha & Hp & Hx).
+    exists (post te s t v'). split; [|exact Hx].
+    apply (dec_top_scalar_value orc opts te (S f) t w s v' Hsc Hs0 Ha Hp).
+  - destruct t; try discriminate. eapply accepts_int; eauto.
+Qed.
+
+Theorem refuses_scalar_partial orc opts te f t w :
+  oracle_total orc ->
+  proved_scalar t = true -> scalar_tok w = true -> wf_tok w = true ->
+  rep_scalar orc t (den w) = RNone -> fits orc t w = true ->
+  exists e, dec_top orc opts te (S (S f)) t w = OErr e.
+Proof.
+  intros Ho Ht Hs Hw Hr Hf.
+  pose proof (proved_scalar_is_scalar t Ht) as Hsc.
+  destruct (proved_scalar_leaf t Ht) as [s Hs0].
+  assert (H : (exists e, run_action orc s (arm s w) w = SE e) \/ run_action orc s (arm s w) w = SDefaultArm).
+  { destruct (simple_type t) eqn:Est.
+    - apply (simple_arm_refuses orc t s w Ho Est Hs0 Hs Hw Hr).
+      destruct t; try discriminate; exact Hf.
+    - destruct t; try discriminate. cbn in Hs0. inversion Hs0; subst s.
+      apply int_arm_refuses; assumption. }
+  destruct H as [[e He]|Hd].
+  - exists e. apply (dec_top_scalar_error orc opts te (S f) t w s e Hsc Hs0 He).
+  - apply (default_arm_is_error orc opts te f t w s Ho Hsc Hs0 Hs Hw Hd).
+Qed.
+
+(* ------------------------------------------------------------------ no panic on scalar destinations *)
+
+Definition good (te : tenv) (s : sleaf) (t : gtype) (r : sres) : Prop :=
+  match r with
+  | SV v => plain (post te s t v) = true
+  | SE _ | SDefaultArm => True
+  | _ => False
+  end.
+
+Lemma lift_good {A} te s t (r : oresult A) k : not_miss r -> (forall a, good te s t (k a)) -> good te s t (lift r k).
+Proof. destruct r; cbn; intros H Hk; [apply Hk | exact I | destruct H]. Qed.
+
+Lemma o_time_plain orc fn a x : o_time orc fn a = ROk x -> plain x = true.
+Proof.
+  unfold o_time. destruct (o_call orc fn a); try discriminate.
+  unfold time_of_payload. destruct (map z_of_text (split_all 9 payload)) as [|[y|] [|[mo|] [|[d|] [|[h|] [|[mi|] [|[s|] [|[ns|] [|[u|] [|? ?]]]]]]]]]; try discriminate.
+  intros H; inversion H; reflexivity.
+Qed.
+
+Lemma lift_time_good te s t orc fn a : not_miss (o_time orc fn a) -> s = STime -> good te s t (lift (o_time orc fn a) SV).
+Proof.
+  intros H Hs. subst s. destruct (o_time orc fn a) as [x| |] eqn:E; cbn; [|exact I|destruct H].
+  apply (o_time_plain orc fn a x E).
+Qed.
+
+Lemma scalar_arm_good orc te t s w :
+  oracle_total orc -> is_scalar_type t = true -> sleaf_of t = Some s ->
+  scalar_tok w = true -> wf_tok w = true ->
+  good te s t (run_action orc s (arm s w) w).
+Proof.
+  intros [Of Oi Ob Ot Oc Ou Op] Ht Hs Hsc Hw.
+  destruct t as [ |k| | | | | | | | | | | |e|n e|k0 v0|e| |n| ]; try discriminate; cbn in Hs; inversion Hs; subst s; clear Hs.
+  all: destruct w as [ | | | | |neg|d|z|z|txt|c|str|b|g|y mo dd tm utc|h mi sec fr utc|ws|ws|n fs nx|k' ws|k'|w'];
+    try discriminate.
+  all: try (cbn in Hw; split_digit d Hw).
+  all: try (destruct k).
+  all: cbn -[o_float o_text o_int o_complex o_time o_f2i lift go_parse_int go_parse_uint parse_int parse_bool uuid_syntax valid_date valid_clock Nat.eqb].
+  all: try exact I; try reflexivity.
+  all: unfold conv_float, unix_time, o_f2i.
+  all: repeat first
+    [ exact I | reflexivity
+    | apply lift_time_good; [first [apply Ou | apply Op] | reflexivity]
+    | apply lift_good; [first [apply Of | apply Oi | apply Ob | apply Ot | apply Oc | apply Ou | apply Op] | intros ?]
+    | match goal with |- good _ _ _ (match ?x with _ => _ end) => destruct x eqn:?E end
+    | match goal with |- good _ _ _ (if ?x then _ else _) => destruct x eqn:?E end ].
+  all: try (cbn [wf_tok] in Hw; congruence).
+  all: try (destruct str; reflexivity).
+  all: try (match goal with E : o_text ?o ?f ?a = RMiss _ _, Ot' : forall fn a, not_miss (o_text ?o fn a) |- _ => pose proof (Ot' f a) as Hn; rewrite E in Hn; destruct Hn end).
+  destruct tm as [[[[? ?] ?] ?]|]; reflexivity.
+Qed.
+
+
+Theorem scalar_no_panic orc opts te f t w :
+  oracle_total orc -> is_scalar_type t = true -> scalar_tok w = true -> wf_tok w = true ->
+  (exists v, dec_top orc opts te (S (S f)) t w = OOk v) \/ (exists e, dec_top orc opts te (S (S f)) t w = OErr e).
+Proof.
+  intros Ho Ht Hs Hw.
+  assert (Hl : exists s, sleaf_of t = Some s) by (destruct t; try discriminate; eexists; reflexivity).
+  destruct Hl as [s Hs0].
+  pose proof (scalar_arm_good orc te t s w Ho Ht Hs0 Hs Hw) as Hg.
+  destruct (run_action orc s (arm s w) w) as [v|e|fn arg| |cal| |why] eqn:Er; cbn [good] in Hg;
+    [ | | destruct Hg | | destruct Hg | destruct Hg | destruct Hg].
+  - left. exists (post te s t v). apply (dec_top_scalar_value orc opts te (S f) t w s v Ht Hs0 Er Hg).
+  - right. exists e. apply (dec_top_scalar_error orc opts te (S f) t w s e Ht Hs0 Er).
+  - right. apply (default_arm_is_error orc opts te f t w s Ho Ht Hs0 Hs Hw Er).
+Qed.
+
+(* ------------------------------------------------------------------ link with [representable] and [denote] *)
+
+Lemma representable_scalar orc opts te n t w :
+  is_scalar_type t = true -> scalar_tok w = true ->
+  representable orc opts te (S n) t (den w) = rep_scalar orc t (den w).
+Proof.
+  intros Ht Hs. destruct t; try discriminate; destruct w; try discriminate; reflexivity.
+Qed.
+
+(* one decoder for every position: the three routes reach the same routine for scalar types
+   (C06_routes_agree is the corresponding statement about the Go tables) *)
+Lemma route_independent_scalar orc opts te fuel t w pl st r1 r2 :
+  is_scalar_type t = true -> dec orc opts te fuel r1 t w pl st = dec orc opts te fuel r2 t w pl st.
+Proof.
+  intros Ht. destruct fuel as [|f]; [reflexivity|]. cbn [dec]. unfold dec_step.
+  replace (leaf_of r1 t) with (leaf_of r2 t); [reflexivity|].
+  destruct t; try discriminate; reflexivity.
+Qed.
